@@ -198,6 +198,32 @@ def run(rep, tier):
                             rep.violation(f'getitem-not-commuting:{which}:{p}',
                                           f'{which}: cat[{idx}].{p} != cat.{p}[{idx}] (property evaluated before indexing: {cached_before})',
                                           {'class': which, 'property': p, 'index': str(idx), 'cached_before': cached_before})
+            # get_label(s) / get_id(s) on the catalogue and on slices of it: positions vs the model (absent labels are refused)
+            ids_all = [int(v) for v in (cat.labels if which == 'SourceCatalog' else cat.ids)]
+            getter = (lambda c_, ls: c_.get_labels(ls)) if which == 'SourceCatalog' else (lambda c_, ls: c_.get_ids(ls))
+            for _ in range(6):
+                keep = sorted(r.sample(range(n), r.randint(2, n))) if r.random() < 0.7 else list(range(n))
+                if r.random() < 0.3:
+                    r.shuffle(keep)                             # a list index may also reorder the sources
+                sub = cat[keep] if keep != list(range(n)) else cat
+                held = [ids_all[k_] for k_ in keep]
+                req = [r.choice(ids_all) for _ in range(r.randint(1, 3))] if r.random() < 0.6 else r.sample(held, min(len(held), r.randint(1, 3)))
+                lines.append('catlabels ' + ' '.join(map(str, held)) + ' | ' + ' '.join(map(str, req)))
+                try:
+                    with warnings.catch_warnings():
+                        warnings.simplefilter('ignore')
+                        got = getter(sub, req if len(req) > 1 or r.random() < 0.5 else req[0])
+                    gl = [int(v) for v in np.atleast_1d(got.labels if which == 'SourceCatalog' else got.ids)]
+                    exps.append('ok ' + ','.join(str(held.index(v)) for v in gl))
+                    if gl != req:
+                        rep.violation(f'get_label-wrong-source:{which}', f'{which}: requested {req} from a catalogue holding {held}, got sources {gl}',
+                                      {'class': which, 'held': held, 'requested': req})
+                except (ValueError, KeyError):
+                    exps.append('err ValueError')
+                except IndexError:
+                    exps.append('err IndexError')
+                rep.case(('getlabels', which, tuple(held), tuple(req)), any(v not in held for v in req) or held != sorted(held),
+                         kind=f'get_labels:{which}:' + ('absent' if any(v not in held for v in req) else 'present'))
         independence(rep, r)
         photometry_independence(rep, r)
         photometry_independence(rep, r)
